@@ -8,7 +8,7 @@ for f in os.listdir(src):
     if f in('patch.diff','demo.sh') or f.endswith(('.c','.py','.rs','.gdb')): shutil.copy(f'{src}/{f}',f'{dst}/{f}')
 meta=json.load(open(f'{src}/meta.json'))
 conf=[l.strip() for l in open(f'{src}/confirm.txt') if l.strip()]
-meta.update({"origin":"written by an independent sub-agent that saw only the property text and a scratch worktree (round 3, 4 or 5)",
+meta.update({"origin":"written by an independent sub-agent that saw only the property text and a scratch worktree (round 3-6)",
  "confirmed_by_me":conf,
  "confirmed_how":"confirm_seed.sh in the scratch worktree: apply patch, `cargo test --workspace --no-fail-fast --offline` (176 incl. doc tests), demo.sh must exit 1 with the change and 0 without it",
  "caught_by":meta.get("caught_by",[]),"detection_cmd":"","note":meta.get("note","")})
